@@ -25,6 +25,9 @@ func (a *audienceMember) checkExpr(cfg *config, expSrc string) (expr, error) {
 	if err != nil {
 		return expr{}, err
 	}
+	// A parameter value can start or end with blanks; the printed
+	// configuration would be read back without them.
+	expSrc = strings.TrimSpace(expSrc)
 
 	compiledExp, err := compileExpr(expSrc)
 	if err != nil {
